@@ -662,6 +662,22 @@ def check_C02(ctx):
                     ctx.violation("derivation", "spec %r, command line %r: nothing was written for %s, yet it holds %r instead of its default"
                                   % (c["root"]["spec"], c["argv"], d["name"], a["values"].get(key)), case=c, impl=a["values"])
     ctx.stream("variables sharing one default slice", 0, **st_sh)
+    # values that start with "=" (or consist of "=" only), in every spelling that can carry them: "-o==v" binds "=v"
+    eqd = [gen.mkopt("strings", "o out", sbu=True), gen.mkopt("strings", "e", sbu=True), gen.mkarg("strings", "X", sbu=True)]
+    equnits = [["-o==v"], ["-o==="], ["-e==prod"], ["--out==v"], ["-o", "=v"], ["--out", "=v"], ["-o=a=b"], ["-o=a="], ["-e=x"], ["x"], ["=v"],
+               ["-o="], ["--out=="], ["-e", "="], ["-oe==v"], ["-eo=="]]
+    eqc = []
+    for sp in ("[-o...] [-e...] [X...]", "[OPTIONS] [X...]", "-e X", "(-o | -e)... X"):
+        for n in (1, 2, 3):
+            for us in itertools.product(equnits, repeat=n):
+                eqc.append({"op": "run", "env": {}, "version": None, "root": gen.mkcmd("app", decls=copy.deepcopy(eqd), spec=sp, policy=0),
+                            "argv": [t for u in us for t in u]})
+    if len(eqc) > ctx.scale(5000, 20000):
+        eqc = ctx.rng.sample(eqc, ctx.scale(5000, 20000))
+    number(eqc, start=5 * 10 ** 6)
+    res_eq = correspond(ctx, eqc, fields, "values that start with =")
+    st_eq = judge_sentences(ctx, eqc, res_eq, "C02")
+    ctx.stream("values that start with =", 0, **st_eq)
     res = correspond(ctx, cases, fields, "random specs, observable bindings")
     st1 = judge_sentences(ctx, cases, res, "C02")
     res2 = correspond(ctx, extra, fields, "ambiguous specs, all short command lines")
